@@ -29,6 +29,8 @@ type rnsFam struct {
 
 func init() { families["rns"] = func() Family { return &rnsFam{} } }
 
+func (f *rnsFam) Reseed(r *rand.Rand) { f.rng = r }
+
 func strs(l []interface{}, def []string) []string {
 	if len(l) == 0 {
 		return def
